@@ -39,10 +39,14 @@ fn tool_fallback() -> String {
     "0x00000000000000000000000000000000000000aa".to_string()
 }
 
-fn one_case(ctx: &WorkerCtx, rep: &mut WorkerReport, case_seed: u64) {
-    let (net, traces) = net_for_shard(ctx.shard);
+fn one_case(ctx: &WorkerCtx, rep: &mut WorkerReport, case_seed: u64, boundary: bool, traces: bool) {
+    let (net, _) = net_for_shard(ctx.shard);
     let mut rng = Rng::new(case_seed);
-    let Some(mut bed) = Bed::new("C17", traces) else {
+    // boundary mode: the chain starts a few blocks below the height at which the rule set changes, so
+    // that some simulation is made under the old rules for a transaction that runs under the new ones
+    let act = prague_height(net);
+    let base = if boundary && act > 20 { act - 4 - rng.below(8) } else { 0 };
+    let Some(mut bed) = Bed::new_at("C17", traces, base) else {
         rep.inconclusive("test bed setup failed");
         return;
     };
@@ -52,7 +56,7 @@ fn one_case(ctx: &WorkerCtx, rep: &mut WorkerReport, case_seed: u64) {
     w.tool_iids.push("bed-tool".into());
     w.batchers.push(bed.batcher.clone());
     w.profile.use_probe = false;
-    let pre_blocks = rng.range(1, 6);
+    let pre_blocks = if base > 0 { 1 } else { rng.range(1, 6) };
     let mut rr = rng.fork(3);
     grow(&mut w, &mut bed.d, pre_blocks, CommitPolicy::Random(30), &mut rr);
     if rng.chance(1, 3) && bed.d.height > 3 {
@@ -77,7 +81,11 @@ fn one_case(ctx: &WorkerCtx, rep: &mut WorkerReport, case_seed: u64) {
     let mut uniq = 0u64;
     for i in 0..pairs {
         uniq += 1;
-        let (name, to, data): (&str, Option<String>, Vec<u8>) = match rng.below(14) {
+        let pick = if base > 0 && (bed.d.next_height() == act || rng.chance(1, 2)) { 14 } else { rng.below(15) };
+        let (name, to, data): (&str, Option<String>, Vec<u8>) = match pick {
+            // a precompile that exists from Prague on (BLS12-381 G1ADD of two points at infinity):
+            // the answer tells which rule set ran the code
+            14 => ("rule-set-probe", Some(tool.clone()), asm::tool_call(asm::OP_STATIC, &[asm::word_addr(&{ let mut a = [0u8; 20]; a[19] = 0x0b; a })], &[0u8; 256])),
             12 => ("number-blockhash", Some(numhash.clone()), vec![]),
             13 => ("deploy-number-stamped", None, asm::number_stamped_init()),
             0 => ("inc", Some(tool.clone()), asm::tool_call(asm::OP_INC, &[asm::word_u64(rng.range(1, 3))], &[])),
@@ -101,6 +109,7 @@ fn one_case(ctx: &WorkerCtx, rep: &mut WorkerReport, case_seed: u64) {
             call.insert("to".into(), json!(t));
         }
         call.insert("data".into(), json!(hist::hx(&data)));
+        let next_number = bed.d.next_height();
         let sim = bed.d.inst.call("eth_call", json!([Value::Object(call)]));
         let Some((sim_ok, sim_out)) = sim_result(&sim) else {
             rep.count("simulation_refused", 1);
@@ -156,6 +165,11 @@ fn one_case(ctx: &WorkerCtx, rep: &mut WorkerReport, case_seed: u64) {
             if ["inc", "cond", "sstore-old", "create-child", "create2-child", "nested-inc", "batch", "sload", "number-blockhash"].contains(&name) {
                 rep.nontrivial(format!("{}:{}:{}", name, signed, &out[out.len().saturating_sub(6)..]));
             }
+            if name == "rule-set-probe" {
+                let rel = if base == 0 { "far" } else if next_number == act { "first-block-of-new-rules" } else if next_number < act { "before" } else { "after" };
+                rep.nontrivial(format!("rule-set-probe:{}:{}:{}-bytes", net, rel, out.len().saturating_sub(2) / 2));
+                rep.set_add("rule_set_probe_answers", format!("{}:{}:{}-bytes", net, rel, out.len().saturating_sub(2) / 2));
+            }
         } else if ["cond", "create2-child", "batch"].contains(&name) {
             // without traces only the (state-dependent) success flag is comparable
             rep.nontrivial(format!("{}:{}:{}", name, signed, exec_ok));
@@ -201,13 +215,20 @@ fn one_case(ctx: &WorkerCtx, rep: &mut WorkerReport, case_seed: u64) {
 }
 
 pub fn worker(ctx: &WorkerCtx) -> WorkerReport {
-    let (net, traces) = net_for_shard(ctx.shard);
+    let (net, mut traces) = net_for_shard(ctx.shard);
+    let mainnet_boundary = net == "bitcoin" && ctx.thorough() && ctx.shard % 96 == 2;
+    if mainnet_boundary {
+        traces = true; // outputs are compared through the recorded traces
+    }
     crate::setup_env(net, traces);
     let mut rep = WorkerReport::default();
     let mut rng = ctx.rng();
-    for _ in 0..(if ctx.thorough() { 6 } else { 1 }) {
+    for c in 0..(if ctx.thorough() { 6 } else { 1 }) {
         let cs = rng.next();
-        one_case(ctx, &mut rep, cs);
+        // one signet shard in twelve crosses the Prague height (275 000 empty blocks first, ~30 s);
+        // thorough also crosses the mainnet one (923 369 blocks, ~2 min) on a few shards
+        let boundary = c == 0 && ((net == "signet" && ctx.shard % 12 == 1) || mainnet_boundary);
+        one_case(ctx, &mut rep, cs, boundary, traces);
     }
     rep
 }
